@@ -331,9 +331,15 @@ C09f(line, pre) ==
 Protected(W, g, n) == n \in Listed(W, g) /\ V(W, g)[n].nodel /\ ~V(W, g)[n].force
 C10v(line, pre, exp) ==
   UNION {{<<"C10", "removed-protected", g, n>> : n \in {m \in TermAttempt(line, g) \cup DelAttempt(line, g) : Protected(pre, g, m)}}
-         \cup \* it does not hold back the others: what the specification removes with the annotation ignored is still removed
-            (IF NoFaults(line) /\ ~Dry(pre, g) /\ (\E n \in Listed(pre, g) : Protected(pre, g, n)) /\ ListedOK(line, g)
-                /\ ~(exp.res[g].terminated \subseteq TermOK(line, g))
+         \cup \* it does not hold back the others: an unprotected node that the same scan removes on a clone of the world WITHOUT the
+              \* annotations (twin run, same controller memory) is removed here as well
+            (IF "twin" \in DOMAIN line /\ NoFaults(line) /\ ~Dry(pre, g) /\ ListedOK(line, g) /\ g \in DOMAIN line.twin.noAnnotTerminated
+                /\ (\E n \in Listed(pre, g) : Protected(pre, g, n))
+                /\ \E i \in 1..Len(line.twin.noAnnotTerminated[g]) :
+                       LET tn == line.twin.noAnnotTerminated[g][i] IN
+                       /\ ~Protected(pre, g, tn) /\ tn \notin TermOK(line, g)
+                       /\ ~\E k \in 1..Len(line.twin.cloneTerminated[g]) : line.twin.cloneTerminated[g][k] = tn    \* the exact clone keeps it too: the annotation is what differs
+                /\ ~\E fn \in TermAttempt(line, g) : fn \notin TermOK(line, g)      \* (a refused / failed terminate here explains a shorter list)
              THEN {<<"C10", "held-back-others", g, "">>} ELSE {})
         : g \in Groups(pre)}
 C10f(line, pre) ==
@@ -342,6 +348,7 @@ C10f(line, pre) ==
          (IF P # {} THEN {"C10:protected-present"} ELSE {})
          \cup (IF \E n \in P : ~V(pre, g)[n].cordoned /\ (ClauseA(pre, g, n) \/ ClauseB(pre, g, n)) THEN {"C10:protected-expired-kept"} ELSE {})
          \cup (IF P # {} /\ TermOK(line, g) # {} THEN {"C10:others-removed"} ELSE {})
+         \cup (IF P # {} /\ "twin" \in DOMAIN line THEN {"C10:twin-without-annotation"} ELSE {})
          \cup (IF P \cap TaintedOK(line, g) # {} THEN {"C10:protected-tainted"} ELSE {})
          \cup (IF P \cap UntaintedOK(line, g) # {} THEN {"C10:protected-untainted"} ELSE {})
         : g \in Groups(pre)}
@@ -452,12 +459,18 @@ C19v(line, pre, exp) ==
      \cup UNION {{<<"C19", "terminated-non-candidate-instance", g, n>> : n \in {m \in TermAttempt(line, g) : m \notin Listed(pre, g)}} : g \in Groups(pre)}
      \cup (IF exp.ret = "notingroup" /\ exp.valid /\ line.ret # "notingroup" /\ ~line.panic /\ ~line.hang
              THEN {<<"C19", "continued-after-not-in-group", "", "">>} ELSE {})
-     \* the removal request of the specification (same candidates, same cloud state) refuses or stops where this one went on:
-     \* an instance was terminated although the whole request had to be refused (minimum) or had already stopped
-     \cup (IF ~exp.valid THEN {} ELSE
-           UNION {{<<"C19", "terminated-beyond-the-admissible-request", g, n>> :
-                     n \in {m \in TermAttempt(line, g) : ~\E i \in 1..Len(exp.res[g].calls) : exp.res[g].calls[i].op = "terminate" /\ exp.res[g].calls[i].n = m}}
-                  : g \in Groups(pre)})
+     \* a removal request that would take the group below the ASG minimum is refused as a whole: for every run of consecutive
+     \* terminate calls of a group (= one request, cut short at its first failure), the desired capacity the cloud had when the
+     \* request started, minus the size of the run, stays at or above the minimum
+     \cup UNION {LET idx == {i \in 1..Len(cs) : isTerm(i) /\ cs[i].g = g}
+                    starts == {i \in idx : i = 1 \/ ~(isTerm(i - 1) /\ cs[i - 1].g = g /\ cs[i - 1].ok)}
+                    runEnd(st) == CHOOSE e \in st..Len(cs) : (\A m \in st..e : isTerm(m) /\ cs[m].g = g) /\ (e = Len(cs) \/ ~(isTerm(e + 1) /\ cs[e + 1].g = g) \/ ~cs[e].ok)
+                                                            /\ \A m \in st..(e - 1) : cs[m].ok
+                    base == IF RefreshFailed(line) THEN pre.groups[g].pc.desired ELSE pre.groups[g].asg.desired
+                    before(st) == Cardinality({m \in idx : m < st /\ cs[m].ok})
+                IN {<<"C19", "request-breaching-the-minimum-not-refused-whole", g, cs[st].n>> :
+                      st \in {x \in starts : LET d0 == base - before(x) IN d0 <= pre.groups[g].asg.min \/ d0 - (runEnd(x) - x + 1) < pre.groups[g].asg.min}}
+               : g \in Groups(pre)}
 C19f(line, pre, exp) ==
   (IF \E i \in 1..Len(line.calls) : line.calls[i].op = "delete" THEN {"C19:node-deletes"} ELSE {})
   \cup (IF \E i \in 1..Len(line.calls) : line.calls[i].op = "terminate" /\ ~line.calls[i].ok THEN {"C19:terminate-failed"} ELSE {})
